@@ -1,7 +1,8 @@
 (* C14 - the property theorems, nothing else.  Each is closed by [exact] of a lemma proved in coq/Persist/*Proofs.v
    and followed by Print Assumptions. *)
 From Icv Require Import Base.Tac Persist.PsValue Persist.PsModel Persist.PsValueProofs
-  Persist.PsAtomicProofs Persist.PsRestoreProofs Persist.PsRoundtripProofs Persist.PsStateProofs Persist.PsModattrProofs Persist.PsFrameProofs Persist.PsSeqProofs Persist.PsSpineProofs Persist.PsReloadProofs Persist.PsHistoryProofs.
+  Persist.PsAtomicProofs Persist.PsRestoreProofs Persist.PsRoundtripProofs Persist.PsStateProofs Persist.PsModattrProofs Persist.PsFrameProofs Persist.PsSeqProofs Persist.PsSpineProofs Persist.PsReloadProofs Persist.PsHistoryProofs
+  Persist.PsPopModel Persist.PsPopProofs Persist.PsFileModel Persist.PsFileProofs Facts.Facts_c14.
 From Coq Require Import NArith.
 Local Open Scope N_scope.
 
@@ -284,6 +285,129 @@ Theorem C14_modattr_number_precision_fixed :
 Proof. exact ps_modattr_precision_fixed. Qed.
 Print Assumptions C14_modattr_number_precision_fixed.
 
+(* ---------------------------------------------------------------- populations: every object gets back ITS OWN version *)
+(* modified-attributes.conf for SEVERAL objects: a block per object that lists something, closed with that object's own
+   version (ps_pop_dump); the file is evaluated block by block on the population as configured (ps_pop_replay).
+   specs: per object its name, its set P of pairwise incomparable paths, the configured object o0 and the running object
+   cur (ps_pspec_ok = the premises of C14_modattr_roundtrip_nested for that object).  For every population with distinct
+   names, of any size: the dump succeeds, the evaluation succeeds, the population keeps its objects and order, and EVERY
+   object ends up with its own values on P and on the frame, its own original_attributes entries and - if it lists
+   anything - its OWN version (ps_pspec_concl); an object that lists nothing is exactly the configured object. *)
+Theorem C14_population_reload : forall fe now specs,
+  NoDup (map ps_s_name specs) -> (forall s, In s specs -> ps_pspec_ok fe s) ->
+  exists blocks r,
+    ps_pop_dump (ps_pop_cur specs) = Some blocks /\ ps_pop_replay fe now blocks (ps_pop_base specs) = (true, r) /\
+    map ps_p_name r = map ps_s_name specs /\
+    (forall s, In s specs -> exists ro, ps_pop_find (ps_s_name s) r = Some ro /\ ps_pspec_concl s ro).
+Proof. exact ps_pop_reload. Qed.
+Print Assumptions C14_population_reload.
+
+(* THE WHOLE STOP/START CYCLE.  DumpProgramState of the running population = the state file (of the attributes modelled
+   here it carries every object's version; original_attributes is not a state attribute) + modified-attributes.conf;
+   start-up on the population as configured = RestoreObjects (ps_state_restore), then evaluation of the file.  Nothing
+   throws, and EVERY object - whether it lists modified attributes or not - has its own version, its own values on P and
+   on the frame, its own original_attributes entries (rebuilt by the replay); an object that lists nothing is the
+   configured object carrying its version. *)
+Theorem C14_population_restart : forall fe now specs,
+  NoDup (map ps_s_name specs) -> (forall s, In s specs -> ps_pspec_ok fe s) ->
+  exists r,
+    ps_pop_restart fe now (ps_pop_cur specs) (ps_pop_base specs) = Some (true, r) /\
+    map ps_p_name r = map ps_s_name specs /\
+    (forall s, In s specs -> exists ro, ps_pop_find (ps_s_name s) r = Some ro /\ ps_pspec_concl_restart s ro).
+Proof. exact ps_pop_restart_reload. Qed.
+Print Assumptions C14_population_restart.
+
+(* ... and the premises hold after EVERY interleaving of ModifyAttribute / RestoreAttribute calls on the objects of the
+   population, at any times, in which each object's own calls form an allowed history (paths of its P, no modify meets a
+   dictionary): dump + evaluation on the configured population succeed and each object reads as before the restart, with
+   its own original_attributes entries and its own version. *)
+Theorem C14_population_history_reload : forall fe now cfg H,
+  NoDup (map ps_c_name cfg) -> (forall c, In c cfg -> ps_pcfg_ok fe c) ->
+  (forall c, In c cfg -> ps_hist_ok fe (ps_c_P c) (ps_c_o0 c) (ps_pop_proj (ps_c_name c) H)) ->
+  let running := ps_pop_run fe (ps_pop_cfg cfg) H in
+  (forall c, In c cfg -> forall k x, In (k, x) (ps_orig_dict (ps_run fe (ps_c_o0 c) (ps_pop_proj (ps_c_name c) H))) ->
+     ps_listed_ok fe (ps_run fe (ps_c_o0 c) (ps_pop_proj (ps_c_name c) H)) k) ->
+  exists blocks r,
+    ps_pop_dump running = Some blocks /\ ps_pop_replay fe now blocks (ps_pop_cfg cfg) = (true, r) /\
+    map ps_p_name r = map ps_c_name cfg /\
+    (forall c, In c cfg -> exists cur ro,
+       ps_pop_find (ps_c_name c) running = Some cur /\ ps_pop_find (ps_c_name c) r = Some ro /\
+       (forall p, In p (ps_c_P c) -> ps_get_attr p ro = ps_get_attr p cur) /\
+       (forall q, (forall p, In p (ps_c_P c) -> ps_incomp p q) -> ps_get_attr q ro = ps_get_attr q cur) /\
+       (forall k x, In (k, x) (ps_orig_dict ro) <-> In (k, x) (ps_orig_dict cur)) /\
+       (ps_orig_dict cur <> [] -> ps_m_version ro = ps_m_version cur) /\
+       (ps_orig_dict cur = [] -> ro = ps_c_o0 c)).
+Proof. exact ps_pop_history_reload. Qed.
+Print Assumptions C14_population_history_reload.
+
+(* ... and followed by the whole stop/start cycle: every object has its own version back, whether or not it lists
+   modified attributes (the state file carries the version of every object) *)
+Theorem C14_population_history_restart : forall fe now cfg H,
+  NoDup (map ps_c_name cfg) -> (forall c, In c cfg -> ps_pcfg_ok fe c) ->
+  (forall c, In c cfg -> ps_hist_ok fe (ps_c_P c) (ps_c_o0 c) (ps_pop_proj (ps_c_name c) H)) ->
+  let running := ps_pop_run fe (ps_pop_cfg cfg) H in
+  (forall c, In c cfg -> forall k x, In (k, x) (ps_orig_dict (ps_run fe (ps_c_o0 c) (ps_pop_proj (ps_c_name c) H))) ->
+     ps_listed_ok fe (ps_run fe (ps_c_o0 c) (ps_pop_proj (ps_c_name c) H)) k) ->
+  exists r,
+    ps_pop_restart fe now running (ps_pop_cfg cfg) = Some (true, r) /\
+    map ps_p_name r = map ps_c_name cfg /\
+    (forall c, In c cfg -> exists cur ro,
+       ps_pop_find (ps_c_name c) running = Some cur /\ ps_pop_find (ps_c_name c) r = Some ro /\
+       (forall p, In p (ps_c_P c) -> ps_get_attr p ro = ps_get_attr p cur) /\
+       (forall q, (forall p, In p (ps_c_P c) -> ps_incomp p q) -> ps_get_attr q ro = ps_get_attr q cur) /\
+       (forall k x, In (k, x) (ps_orig_dict ro) <-> In (k, x) (ps_orig_dict cur)) /\
+       ps_m_version ro = ps_m_version cur /\
+       (ps_orig_dict cur = [] -> ro = ps_set_version (ps_m_version cur) (ps_c_o0 c))).
+Proof. exact ps_pop_history_restart. Qed.
+Print Assumptions C14_population_history_restart.
+
+(* ---------------------------------------------------------------- sizes: the state file as framed records *)
+(* "whatever their content" includes SIZE.  The state file is a sequence of netstring-framed JSON records; jlen is the byte
+   length of a record's JSON text (an input of the model).  For every population, every jlen and every limit configuration
+   of the read side (digits of the length prefix, maxMessageLength, nesting limit of the decoder): if every record is one
+   the reader accepts, RestoreObjects succeeds and gives back the population.  Size enters nowhere else. *)
+Theorem C14_state_file_roundtrip : forall jlen env mask digits maxlen dlim objs fresh,
+  ps_env_ok env -> (mask =? 0) = false ->
+  Forall2 (ps_obj_shape env mask) objs fresh -> NoDup (map ps_id objs) ->
+  (forall o, In o objs -> ps_persisted_clean env mask o) ->
+  (forall o, In o objs -> ps_frame_accepts digits maxlen (jlen (ps_dump_object env mask o)) = true /\
+                           ps_depth_accepts dlim (ps_dump_object env mask o) = true) ->
+  ps_restore_file env mask digits maxlen dlim (ps_dump_file jlen env mask objs) fresh = Some objs.
+Proof. exact ps_file_roundtrip. Qed.
+Print Assumptions C14_state_file_roundtrip.
+
+(* THE LENGTH LIMITS OF THE TWO SIDES, READ FROM THE SOURCE (Facts_c14, regenerated on every run): DumpObjects writes
+   records of any length (f_ps_dump_maxlen = no limit) and RestoreObjects passes no maxMessageLength, so every record
+   shorter than 10^9 bytes (the nine digits the netstring reader accepts in a length prefix) that DumpObjects writes is
+   accepted.  Stops checking when one side gets a limit the other does not have. *)
+Theorem C14_state_frame_limits_agree : forall len,
+  ps_frame_written ps_src_dump_maxlen len = true -> len < 10 ^ 9 -> ps_src_frame_fits len = true.
+Proof. exact ps_src_frame_limits_agree. Qed.
+Print Assumptions C14_state_frame_limits_agree.
+
+(* what a limit on the read side alone does: the first record longer than it makes RestoreObjects throw - nothing is loaded *)
+Theorem C14_state_frame_rejected : forall env mask digits maxlen dlim rec len file pop,
+  ps_frame_accepts digits maxlen len = false ->
+  ps_restore_file env mask digits maxlen dlim ((rec, len) :: file) pop = None.
+Proof. exact ps_file_frame_rejected. Qed.
+Print Assumptions C14_state_frame_rejected.
+
+(* NESTING: the write side has no limit, the decoder RestoreObject uses has one (128, JsonDecode since d99256e) - known
+   finding state-depth-limit.  With that limit a clean host whose performance data holds an element nested 125 arrays deep
+   (record depth 129) is dumped and silently NOT restored: it comes back as the freshly configured object; 124 levels come
+   back; without a decoder limit (proposed fix repo_patches/c14-state-depth.diff) 125 levels come back too. *)
+Theorem C14_state_depth_limit_refuted :
+  ps_clean ps_s_env ps_FAState (ps_f_cr 125) = true /\
+  ps_json_depth (ps_dump_object ps_s_env ps_FAState (ps_s_host [1] (PsStr [99]) (PsNum 2 0) (ps_f_cr 125))) = 129 /\
+  ps_restore_file ps_s_env ps_FAState 9 None (Some 128) (ps_dump_file (fun _ => 1000) ps_s_env ps_FAState (ps_f_objs 125)) ps_f_fresh
+    = Some ps_f_fresh /\
+  ps_restore_file ps_s_env ps_FAState 9 None (Some 128) (ps_dump_file (fun _ => 1000) ps_s_env ps_FAState (ps_f_objs 124)) ps_f_fresh
+    = Some (ps_f_objs 124) /\
+  ps_restore_file ps_s_env ps_FAState 9 None None (ps_dump_file (fun _ => 1000) ps_s_env ps_FAState (ps_f_objs 125)) ps_f_fresh
+    = Some (ps_f_objs 125).
+Proof. exact ps_file_depth_refuted. Qed.
+Print Assumptions C14_state_depth_limit_refuted.
+
 (* ---------------------------------------------------------------- crash atomicity *)
 (* kill at any instant of a persisting write: for every prefix of the system-call trace (stale temp files removed,
    mkstemp, chmod, write*, fsync, close, rename) the final path holds the complete old or the complete new content,
@@ -345,3 +469,28 @@ Example C14_nonvacuous :
   ps_get_attr ps_w_path_a (snd (ps_restore_attribute ps_w_fe p true 2%Z (snd (ps_modify_attribute ps_w_fe p (PsStr [104]) true 1%Z o))))
     = PsDict [([120], PsNum 1 0); ([122], PsEmpty)].
 Proof. exact ps_restore_after_modify_nonvacuous. Qed.
+
+(* non-vacuity of C14_state_file_roundtrip under the limits the source has now: two hosts, records of 2 MB *)
+Example C14_state_file_nonvacuous :
+  let cr := PsObj [67] [([111], PsStr [120]); ([112], PsArr [PsDict [([97], PsNum 5 1)]; PsEmpty])] in
+  let objs := [ps_s_host [1] (PsStr [99]) (PsNum 2 0) cr; ps_s_host [2] (PsStr [100]) (PsNum 1 0) PsEmpty] in
+  let fresh := [ps_s_host [1] (PsStr [99]) (PsNum 0 0) PsEmpty; ps_s_host [2] (PsStr [100]) (PsNum 0 0) PsEmpty] in
+  ps_src_restore_file ps_s_env ps_FAState (ps_dump_file (fun _ => 2000000) ps_s_env ps_FAState objs) fresh = Some objs /\
+  (forall o, In o objs -> ps_src_frame_fits 2000000 = true /\ ps_depth_accepts ps_src_state_depth (ps_dump_object ps_s_env ps_FAState o) = true).
+Proof. exact ps_file_roundtrip_nonvacuous. Qed.
+
+(* non-vacuity of the population theorems: three objects, calls interleaved at times 5..12; the file has a block for
+   objects 1 and 2 with versions 9 and 12, none for object 3 (everything restored); after the reload the versions are
+   9, 12 and (nothing listed, no state file in this theorem) 0 *)
+Example C14_population_nonvacuous :
+  let running := ps_pop_run ps_q_fe (ps_pop_cfg ps_v_cfg) ps_v_H in
+  (forall c, In c ps_v_cfg -> ps_hist_ok ps_q_fe (ps_c_P c) (ps_c_o0 c) (ps_pop_proj (ps_c_name c) ps_v_H)) /\
+  match ps_pop_dump running with
+  | Some blocks =>
+    map (fun b => (ps_b_name b, length (ps_b_lines b), ps_b_version b)) blocks = [([49], 2%nat, 9%Z); ([50], 2%nat, 12%Z)] /\
+    map (fun po => ps_m_version (ps_p_obj po)) (snd (ps_pop_replay ps_q_fe 99%Z blocks (ps_pop_cfg ps_v_cfg))) = [9%Z; 12%Z; 0%Z] /\
+    fst (ps_pop_replay ps_q_fe 99%Z blocks (ps_pop_cfg ps_v_cfg)) = true
+  | None => False
+  end /\
+  map (fun po => ps_m_version (ps_p_obj po)) running = [9%Z; 12%Z; 11%Z].
+Proof. exact ps_pop_reload_nonvacuous. Qed.
